@@ -5,6 +5,7 @@
 //!   conform <property> record --seed S --out trace.ndjson  impl -> spec
 mod util;
 mod c01;
+mod c05;
 
 fn main() {
     let args: Vec<String> = std::env::args().collect();
@@ -15,6 +16,8 @@ fn main() {
     match (args[1].as_str(), args[2].as_str()) {
         ("c01", "replay") => c01::replay(rest),
         ("c01", "record") => c01::record(rest),
+        ("c05", "replay") => c05::replay(rest),
+        ("c05", "record") => c05::record(rest),
         (p, m) => util::tool_error(&format!("unknown command {p} {m}")),
     }
 }
